@@ -97,11 +97,35 @@ Section PliT.
   Definition stripe_into_t (b : backend) (s : list nat) (old : sseq) : res sseq :=
     if backend_typed C b then kernel_into_t (backend_kernel b) s old else Err 1.
 
-  (* step2 with the translated provided methods *)
+  (* seq.rs StripedSequence::sample as REPAIRED (/repo 740d563), translated text (GenPli.v, names sm_...):
+       let mut data = uninitialized(<rows>); every row, left to right, takes the next C draws;
+       let rows = data.rows(); for i in <f_lo>..<f_hi> { data[<f_row>][<f_col>] = A::default_symbol(); }
+       Self::new(data, <newlen>).expect(..)          (Panic 8 = the expect)
+     The stream of draws is explicit (draw number -> symbol); rows*C draws are consumed as before the
+     repair, the padding cells are then overwritten with the wildcard.
+     (PadModel.striped_sample is the function BEFORE the repair: padding = further draws.) *)
+  Definition sample_fill_t (len : nat) (m : matrix) : res matrix :=
+    let rows := length m in
+    rbind (tx (sm_f_lo_ok len C xr rows) (sm_f_lo_div len C xr rows) (sm_f_lo len C xr rows)) (fun lo =>
+    rbind (tx (sm_f_hi_ok len C xr rows) (sm_f_hi_div len C xr rows) (sm_f_hi len C xr rows)) (fun hi =>
+    for_res (range lo hi) (fun i m' =>
+      rbind (tx (sm_f_row_ok len C xr rows i) (sm_f_row_div len C xr rows i) (sm_f_row len C xr rows i)) (fun r =>
+      rbind (tx (sm_f_col_ok len C xr rows i) (sm_f_col_div len C xr rows i) (sm_f_col len C xr rows i)) (fun c =>
+      m_set C m' r c (wild K)))) m)).
+
+  Definition striped_sample_fix (stream : nat -> nat) (len : nat) : res sseq :=
+    rbind (tx (sm_rows_ok len C xr) (sm_rows_div len C xr) (sm_rows len C xr)) (fun rows =>
+    let data := map (fun r => map (fun c => stream (r * C + c)) (seq 0 C)) (seq 0 rows) in
+    rbind (sample_fill_t len data) (fun data2 =>
+    rbind (tx (sm_newlen_ok len C xr) (sm_newlen_div len C xr) (sm_newlen len C xr)) (fun nl =>
+    match s_new_t C data2 nl with Err _ => Panic 8 | r => r end))).
+
+  (* step2 with the translated provided methods and the repaired sample *)
   Definition step2_t (st : sseq) (o : op2) : res sseq :=
     match o with
     | O1 (OStripeInto b s) => stripe_into_t b s st
     | O1 (OStripe b s) => if backend_typed C b then stripe_fresh_t (stripe_into_t b) s else Err 1
+    | OSample draws len => striped_sample_fix (stream_of draws) len
     | _ => step2 K C st o
     end.
 
